@@ -201,8 +201,26 @@ func CoeffLen(r *rng.R, p int64) int64 {
 	}
 }
 
+// BoundaryCoeff draws a coefficient within a few units of a power of two at
+// the word boundaries of the integer representations (32, 53, 63, 64, 65,
+// 127, 128, 129 bits) or of 10^19/10^20 (the uint64 decimal boundary).
+func BoundaryCoeff(r *rng.R) *big.Int {
+	var v *big.Int
+	if r.Chance(1, 4) {
+		v = new(big.Int).Set(dec.Pow10(int64(18 + r.Intn(4))))
+	} else {
+		k := []uint{31, 32, 53, 63, 64, 65, 127, 128, 129}[r.Intn(9)]
+		v = new(big.Int).Lsh(big.NewInt(1), k)
+	}
+	v.Add(v, big.NewInt(r.Range(-4, 4)))
+	return v
+}
+
 // Coeff draws a non-zero coefficient relative to precision p.
 func Coeff(r *rng.R, p int64) *big.Int {
+	if r.Chance(1, 25) {
+		return BoundaryCoeff(r)
+	}
 	n := CoeffLen(r, p)
 	if n > p && r.Chance(1, 2) {
 		return bigOf(TieDigits(r, p, n-p))
